@@ -33,7 +33,12 @@ def load_known():
     out = {}
     for e in data.get("findings", []):
         if e.get("status") == "known":
-            out[e["key"]] = e
+            # a finding is identified either by the exact failing input (key) or by its call site (property + sub label
+            # that the check only emits after classifying the failure as coming from exactly that call site)
+            if "key" in e:
+                out[e["key"]] = e
+            else:
+                out[("site", e["property"], e["sub"])] = e
     return out
 
 
@@ -197,12 +202,14 @@ def main(argv=None):
     for idx, v in viols:
         case = cases[idx]
         key = finding_key(check_id, case, v["sub"])
+        if ("site", check_id, v["sub"]) in known:
+            key = ("site", check_id, v["sub"])
         if key in known:
             known_hit.append((key, known[key]))
             continue
         if len(reported) >= MAX_REPORT:
             continue
-        path = os.path.join(REPL, "%s-%s.json" % (check_id, key[:12]))
+        path = os.path.join(REPL, "%s-%s.json" % (check_id, key[:12]))  # key is a hash here (site keys were handled above)
         with open(path, "w") as f:
             json.dump({"property": check_id, "key": key, "case": case, "sub": v["sub"], "detail": v.get("detail")},
                       f, indent=1, default=str)
@@ -211,7 +218,8 @@ def main(argv=None):
             os.replace(path, path + ".unconfirmed")
             continue
         reported.append(path)
-    n_new = sum(1 for idx, v in viols if finding_key(check_id, cases[idx], v["sub"]) not in known)
+    n_new = sum(1 for idx, v in viols if finding_key(check_id, cases[idx], v["sub"]) not in known
+                and ("site", check_id, v["sub"]) not in known)
 
     # ---- evidence ----------------------------------------------------------------------------------
     level = mod.LEVEL
@@ -253,7 +261,7 @@ def main(argv=None):
         if key in seen_k:
             continue
         seen_k.add(key)
-        print("KNOWN-FINDING: property=%s %s" % (check_id, e.get("what", key[:12])))
+        print("KNOWN-FINDING: property=%s %s" % (check_id, e.get("what", str(key)[:40])))
     print("%s %s: cases=%d %s states=%s transitions=%s evaluations=%s wall=%.1fs" % (
         check_id, tier, len(cases), json.dumps(counts), cov.get("states"), cov.get("transitions"),
         cov.get("evaluations"), time.time() - t0))
